@@ -713,6 +713,36 @@ func Run(r *fw.Run) {
 		r.Merge(l)
 	})
 
+	// (a1) byte sweep over texts: every byte value and a few other fills in six positions of the text
+	{
+		l := fw.NewLocal()
+		var fills []string
+		for b := 0; b < 256; b++ {
+			fills = append(fills, string([]byte{byte(b)}))
+		}
+		fills = append(fills, "%s", "%d", "— ", "—", "\u212a", "\u2028", "\u0085", "\xe2\x80", "\r\n", "\n\n")
+		for _, sl := range [][2]string{{"", "a\n"}, {"a", "b\n"}, {"a", "\n"}, {"a\n", "b\n"}, {"a\n\n", "\n"}, {"", "\n"}, {"a\n", ""}} {
+			for _, f := range fills {
+				text := sl[0] + f + sl[1]
+				for _, sv := range [][2][]string{{{"k1"}, {"k1"}}, {{"k1", "k2"}, {"k2"}}, {{"k2"}, {"k1"}}} {
+					l.States++
+					l.Execs += 2
+					l.Transitions++
+					msg, class := signOpen(text, sv[0], sv[1])
+					l.Outcomes["sign-open:"+class]++
+					if class == "opened" {
+						l.Nontrivial++
+					}
+					if msg != "" {
+						c := caseT{Kind: "sign-open", Text: strconv.QuoteToASCII(text), Signers: sv[0], Verifiers: sv[1]}
+						r.Violation(c.key(), msg, c)
+					}
+				}
+			}
+		}
+		r.Merge(l)
+	}
+
 	// (a2) co-signing: every ordered pair of non-empty signer lists over k1, k2, k3 (k3 shares k1's name)
 	{
 		l := fw.NewLocal()
@@ -784,6 +814,20 @@ func Run(r *fw.Run) {
 				d := append([]byte{}, orig...)
 				d[p] = c
 				return d
+			}
+			// every byte value at every position for the first two base messages, a spread of values otherwise
+			if i < 2 {
+				for c := 0; c < 256; c++ {
+					if byte(c) != orig[p] {
+						muts = append(muts, mut{fmt.Sprintf("byte%#02x@%d", c, p), rep(byte(c))})
+					}
+				}
+			} else {
+				for _, c := range []byte{0x00, 0x09, 0x0d, 0x1f, '%', '+', '/', '=', '-', '_', 'A', 'z', '0', 0x7f, 0x80, 0xc3, 0xe2, 0xff} {
+					if c != orig[p] {
+						muts = append(muts, mut{fmt.Sprintf("byte%#02x@%d", c, p), rep(c)})
+					}
+				}
 			}
 			muts = append(muts, mut{fmt.Sprintf("flip-low@%d", p), rep(orig[p] ^ 1)}, mut{fmt.Sprintf("flip-high@%d", p), rep(orig[p] ^ 0x80)},
 				mut{fmt.Sprintf("newline@%d", p), rep('\n')}, mut{fmt.Sprintf("space@%d", p), rep(' ')},
